@@ -14,6 +14,8 @@ layouts   zip  {"arch": "zip", "comp": stored | deflated | mixed}               
           tar  {"arch": "tar", "comp": plain | gz | bz2 | xz}                         written by tarfile (tarforge, ustar)
           7z   {"arch": "7z", "coder": copy | lzma | lzma2, "layout": solid | per_file | two_folders,
                 "header": plain | encoded, "between": False | True}                   independent writer verif.gen.sevenz
+          packer variants (base cases only): tar + {"fmt": "gnu"} (GNU tar headers); 7z plain header + {"attrs": "unix"}
+          (attribute and modification-time records as p7zip writes them)
 corrupt   one member at a time, every position that carries a data stream, archives with >= 1 other member that has a result
           "doc"    damaged document: the member's bytes are cut in half, the container is consistent        (zip, tar, 7z)
           "crc"    zip: the CRC-32 field of the member (local + central header) is wrong
@@ -38,6 +40,7 @@ import hashlib
 import io
 import itertools
 import json
+import logging
 import os
 import random
 import tarfile
@@ -202,7 +205,7 @@ def build_tar(case, ms):
         else:
             tm.append({"name": m["name"], "data": m["data"]})
     comp = case["lay"]["comp"]
-    return tarforge.tarforge(tm, None if comp == "plain" else comp, "ustar"), set()
+    return tarforge.tarforge(tm, None if comp == "plain" else comp, case["lay"].get("fmt", "ustar")), set()
 
 
 def sz_groups(ms, layout):
@@ -227,9 +230,10 @@ def build_7z(case, ms):
         else:
             sm.append({"name": m["name"], "data": m["data"]})
     opts = {"coder": lay["coder"], "layout": lay["layout"], "header": lay["header"]}
-    if lay.get("attrs"):
+    if lay.get("attrs") == "unix":
+        # what p7zip writes: FILE_ATTRIBUTE_UNIX_EXTENSION | st_mode << 16 | DOS bits, plus a modification time
         for m, s in zip(ms, sm):
-            s["attrs"] = 0x10 if m["kind"] == "dir" else 0x20
+            s["attrs"] = 0x41ED8010 if m["kind"] == "dir" else 0x81A48020
             s["mtime"] = 1700000000
     if not cor or cor[1] == "doc":
         return SZ.sevenz(sm, opts), set()
@@ -249,7 +253,9 @@ def build_7z(case, ms):
         if k == gi:
             b = bytearray(packed)
             if how == "flip":
-                off = start + len(ms[idx]["data"]) // 2 if coder == "copy" else len(b) // 2
+                # copy: a byte in the middle of the member; LZMA / LZMA2: the first byte of the stream (range coder
+                # start byte / chunk control byte), which no decoder accepts once inverted
+                off = start + len(ms[idx]["data"]) // 2 if coder == "copy" else 0
                 b[off] ^= 0xFF
             elif how == "trunc":
                 del b[len(b) // 2:]
@@ -478,6 +484,7 @@ def judge_corrupt(case, ms, apath, affected, clean, got, err, seed):
 
 def evaluate(case, seed=0, clean_cache=None):
     """-> (fails [(clause, msg)], outcome text, harness problem | None)"""
+    logging.disable(logging.CRITICAL)       # the library logs every skipped member; this process only runs the check
     lay = case["lay"]
     apath = arch_path(lay)
     ms, data, affected = build_archive(case, seed)
@@ -519,6 +526,10 @@ def layouts(tier):
     out += [{"arch": "tar", "comp": c} for c in TAR_COMP]
     for coder, layout, header, between in itertools.product(SZ_CODERS, SZ_LAYOUTS, SZ_HEADERS, (False, True)):
         out.append({"arch": "7z", "coder": coder, "layout": layout, "header": header, "between": between})
+    # packer variants (base cases only): GNU tar headers; 7z members with attribute + time records as p7zip writes them
+    out += [{"arch": "tar", "comp": c, "fmt": "gnu"} for c in TAR_COMP]
+    for coder, layout in itertools.product(SZ_CODERS, SZ_LAYOUTS):
+        out.append({"arch": "7z", "coder": coder, "layout": layout, "header": "plain", "between": False, "attrs": "unix"})
     return out
 
 
@@ -535,6 +546,8 @@ def sequences(tier):
 def corruptions(lay, seq):
     """corruption kinds applicable at each position (the base archive has >= 1 other member with a result)"""
     out = []
+    if lay.get("fmt") or lay.get("attrs"):
+        return out
     for p, kind in enumerate(seq):
         if kind not in STREAM_KINDS:
             continue
@@ -577,9 +590,10 @@ def bases(tier):
 def _part(arg):
     tier, k, n, seed = arg
     ev = 0
-    fails, herr, samples = [], [], []
+    fails, herr = [], []
     outcomes = {}
     per = {}
+    examples = {}
     for i, base in enumerate(bases(tier)):
         if i % n != k:
             continue
@@ -603,13 +617,13 @@ def _part(arg):
             key = arch + (":corrupt" if case["corrupt"] else ":base")
             per[key] = per.get(key, 0) + 1
             outcomes[oc] = outcomes.get(oc, 0) + 1
+            if oc not in examples or json.dumps(case, sort_keys=True) < json.dumps(examples[oc], sort_keys=True):
+                examples[oc] = case
             if prob:
                 herr.append(prob)
             for clause, msg in f:
                 fails.append((clause, arch, case, msg))
-            if len(samples) < 2 and ev in (40, 400):
-                samples.append({"case": case, "members": [m["name"] for m in final_members(case, seed)], "outcome": oc})
-    return {"ev": ev, "fails": fails, "herr": herr[:5], "outcomes": outcomes, "per": per, "samples": samples}
+    return {"ev": ev, "fails": fails, "herr": herr[:5], "outcomes": outcomes, "per": per, "examples": examples}
 
 
 def run(ctx):
@@ -618,8 +632,8 @@ def run(ctx):
     random.Random(ctx.seed).shuffle(args)
     res = P.run_all("verif.props.C10", "_part", args, n=ctx.ncpu, hard_timeout=3000)
     ev = 0
-    fails, herr, samples = [], [], []
-    outcomes, per = {}, {}
+    fails, herr = [], []
+    outcomes, per, examples = {}, {}, {}
     for (st, r, _), a in zip(res, args):
         if st != "done":
             herr.append(f"partition {a} failed: {st}: {str(r)[-600:]}")
@@ -627,21 +641,35 @@ def run(ctx):
         ev += r["ev"]
         fails += [tuple(x) for x in r["fails"]]
         herr += r["herr"]
-        samples += r["samples"]
+        for k_, v in r["examples"].items():
+            if k_ not in examples or json.dumps(v, sort_keys=True) < json.dumps(examples[k_], sort_keys=True):
+                examples[k_] = v
         for k_, v in r["outcomes"].items():
             outcomes[k_] = outcomes.get(k_, 0) + v
         for k_, v in r["per"].items():
             per[k_] = per.get(k_, 0) + v
-    samples = sorted(samples, key=lambda s: json.dumps(s["case"], sort_keys=True))[:6]
+    samples = []
+    for c in SAMPLE_CASES:
+        try:
+            f, oc, _ = evaluate(c, ctx.seed)
+            ms, data, _ = build_archive(c, ctx.seed)
+            got, err = observe(data, arch_path(c["lay"]))
+            samples.append({"case": c, "archive": arch_path(c["lay"]), "archive_bytes": len(data), "members": [m["name"] for m in ms],
+                            "read_archive_labels": [[g[0], g[1]] for g in got], "raised": err, "outcome": oc,
+                            "failed_clauses": sorted({x for x, _ in f})})
+        except Exception as e:  # noqa
+            herr.append(f"sample {json.dumps(c)}: {type(e).__name__}: {e}")
     L = maxlen(ctx.tier)
     cov = {"evaluations": ev, "distinct_nontrivial": len(outcomes), "exhaustive": True, "samples": samples,
-           "rule": f"every member sequence of length 0..{L} over {KINDS} x every layout (zip 3, tar 4, 7z 3 coders x 3 folder layouts x 2 header "
-                   "codings x with/without empty files between = 36) written by the reference writers, read back by an independent reader, "
+           "rule": f"every member sequence of length 0..{L} over {KINDS} x every layout (zip 3, tar 4 (+4 with GNU headers), 7z 3 coders x 3 "
+                   "folder layouts x 2 header codings x with/without empty files between = 36 (+9 with attribute/time records)) written by "
+                   "the reference writers, read back by an independent reader, "
                    "then read by read_archive and compared with the direct extraction of every member; plus, for every position that owns a "
                    "data stream (and >= 1 other member with a result), one corruption at a time: damaged document (all containers), bad CRC / "
                    "truncated deflate stream (zip), flipped byte / truncated pack stream (7z, plain header without interleaved empties); "
                    "distinct_nontrivial = distinct (container, case family, verdict / failing clause set / exception type) classes",
            "per_family": dict(sorted(per.items())), "outcomes": dict(sorted(outcomes.items())),
+           "outcome_examples": {k: examples[k] for k in sorted(examples)},
            "bounds": {"tier": ctx.tier, "max_members": L, "layouts": len(layouts(ctx.tier))}}
     return {"coverage": cov, "failures": fails, "harness_errors": herr[:10],
             "assumptions": [
@@ -655,7 +683,18 @@ def run(ctx):
                 "archive passes the base clauses (missing_empty does not block)",
                 "file_extension / folder_path are not named by the statement and are not compared; filename and file_path are compared "
                 "with strings computed by the harness",
-                "only ustar headers with short ASCII names; 7z members carry no attribute / time records"]}
+                "member names are short ASCII names, at most two directory levels deep"]}
+
+
+SAMPLE_CASES = [
+    {"lay": {"arch": "zip", "comp": "mixed"}, "members": ["dir", "docx", "hidden"], "corrupt": None},
+    {"lay": {"arch": "tar", "comp": "gz"}, "members": ["txt", "empty", "pdf"], "corrupt": None},
+    {"lay": {"arch": "7z", "coder": "lzma2", "layout": "two_folders", "header": "encoded", "between": True}, "members": ["xlsx", "dir", "eml"],
+     "corrupt": None},
+    {"lay": {"arch": "zip", "comp": "deflated"}, "members": ["html", "bin", "txt"], "corrupt": [0, "trunc"]},
+    {"lay": {"arch": "7z", "coder": "lzma", "layout": "per_file", "header": "plain", "between": False}, "members": ["txt", "docx"],
+     "corrupt": [1, "flip"]},
+]
 
 
 # ------------------------------------------------------------------------------------------------------------ triage support
@@ -710,10 +749,25 @@ def shrinks(case):
             c = {"lay": lay, "members": mem, "corrupt": cor}
             if _valid(c):
                 yield c
+    for k in ("fmt", "attrs"):
+        if k in case["lay"]:
+            lay = dict(case["lay"])
+            del lay[k]
+            yield {"lay": lay, "members": mem, "corrupt": cor}
     if arch == "7z" and case["lay"]["layout"] == "two_folders":
         lay = dict(case["lay"])
         lay["layout"] = "per_file"
         c = {"lay": lay, "members": mem, "corrupt": cor}
+        if _valid(c):
+            yield c
+    if arch == "7z" and case["lay"]["coder"] == "lzma2":
+        lay = dict(case["lay"])
+        lay["coder"] = "lzma"
+        c = {"lay": lay, "members": mem, "corrupt": cor}
+        if _valid(c):
+            yield c
+    if cor and cor[0] > 0 and "dir" not in mem:
+        c = {"lay": case["lay"], "members": [mem[cor[0]]] + mem[:cor[0]] + mem[cor[0] + 1:], "corrupt": [0, cor[1]]}
         if _valid(c):
             yield c
     if arch == "7z" and case["lay"]["between"] and len(mem) <= 3:
@@ -749,6 +803,8 @@ def embeds(small, big):
             continue
         if k == "layout" and v == "per_file" and lb.get(k) == "two_folders":
             continue
+        if k == "coder" and v == "lzma" and lb.get(k) == "lzma2":
+            continue
         return False
     cs, cb = small.get("corrupt"), big.get("corrupt")
     if bool(cs) != bool(cb) or (cs and cs[1] != cb[1]):
@@ -759,7 +815,9 @@ def embeds(small, big):
     if cs:
         if not _kind_match(sm[cs[0]], bm[cb[0]]):
             return False
-        return _subseq(sm[:cs[0]], bm[:cb[0]]) and _subseq(sm[cs[0] + 1:], bm[cb[0] + 1:])
+        if "dir" in sm:
+            return _subseq(sm[:cs[0]], bm[:cb[0]]) and _subseq(sm[cs[0] + 1:], bm[cb[0] + 1:])
+        return _subseq(sm[:cs[0]] + sm[cs[0] + 1:], bm[:cb[0]] + bm[cb[0] + 1:])
     return _subseq(sm, bm)
 
 
